@@ -401,6 +401,11 @@ fn fingerprints(args: &[String]) -> i32 {
         let plan = props::generate(&prop, rs, thorough);
         let rep = props::run_plan(&plan, false);
         progress.fetch_add(1, std::sync::atomic::Ordering::SeqCst);
+        if arg(args, "--dump-index").and_then(|s| s.parse::<u64>().ok()) == Some(index) {
+            for l in &rep.lines {
+                let _ = writeln!(o, "    {l}");
+            }
+        }
         let _ = writeln!(
             o,
             "{index} {:016x} {} {}",
